@@ -343,13 +343,14 @@ def read_ndjson(path):
 
 
 # --------------------------------------------------------------------------- trace validation
-def validate_trace(module, cfg, trace_path, tag=None, timeout=1100, extra_env=None):
+def validate_trace(module, cfg, trace_path, tag=None, timeout=1100, extra_env=None, extra_java=()):
     """Run a Trace_* spec on one NDJSON file.  The spec must define the POSTCONDITION that
     prints  <<"TRACE", "{accepted: bool, matched: n, len: n}">>.  Returns dict."""
     env = {"TRACE": trace_path}
     if extra_env:
         env.update(extra_env)
-    r = tlc(module, cfg, workers=1, env=env, timeout=timeout, tag=tag, allow_violation=True, heap="4g")
+    r = tlc(module, cfg, workers=1, env=env, timeout=timeout, tag=tag, allow_violation=True, heap="4g",
+            extra_java=extra_java)
     info = None
     for t, o in emits(r.outfile, ("TRACE",)):
         info = o
@@ -361,10 +362,11 @@ def validate_trace(module, cfg, trace_path, tag=None, timeout=1100, extra_env=No
     return info
 
 
-def validate_traces(module, cfg, paths, par=None, timeout=1100, extra_env=None):
+def validate_traces(module, cfg, paths, par=None, timeout=1100, extra_env=None, extra_java=()):
     par = par or min(NCPU, 8)
     with ThreadPoolExecutor(par) as ex:
-        futs = [ex.submit(validate_trace, module, cfg, p, "%s-%d-%d" % (module, os.getpid(), i), timeout, extra_env)
+        futs = [ex.submit(validate_trace, module, cfg, p, "%s-%d-%d" % (module, os.getpid(), i), timeout, extra_env,
+                          extra_java)
                 for i, p in enumerate(paths)]
         return [f.result() for f in futs]
 
